@@ -227,6 +227,9 @@ func runCell(c Cell) (outcome, error) {
 	for attempt := 0; ; attempt++ {
 		cur, gerr := srv.Cloud.GetPortMapping(mp.ID)
 		if gerr != nil {
+			if c.MState == "missing" {
+				break // already gone
+			}
 			return out, gerr
 		}
 		switch c.MState {
